@@ -1054,7 +1054,14 @@ fn main() {
     let doc: Value = serde_json::from_str(&std::fs::read_to_string(&args[1]).expect("read scenario file")).expect("json");
     std::panic::set_hook(Box::new(|_| {}));
     let mut results = vec![];
-    for sc in doc["scenarios"].as_array().unwrap() {
+    let scenarios = match doc["scenarios"].as_array() {
+        Some(a) => a.clone(),
+        None => {
+            eprintln!("no native scenarios in this document (a verdict without a native route, see its native_replay field)");
+            std::process::exit(2);
+        }
+    };
+    for sc in scenarios.iter() {
         // every scenario runs on a fresh thread: the canister state lives in thread-locals
         let sc = sc.clone();
         let r = std::thread::Builder::new()
